@@ -234,9 +234,15 @@ def c06_milestones(spec, obs, sc=0):
         if t.get("start") or t.get("end") or rec["forward"][sc] is False:
             continue
         edges = deps.edges(fid)
-        if not edges or any(a for a in deps.ancestors(fid) if deps.node[a].get("start")):
+        if not edges:
             continue
         bound = obs["pstart"]
+        # a start typed on an enclosing container reaches the milestone by inheritance (the nearest one): it is a lower bound
+        from mc.ref.calendar import parse_date
+        for a in deps.ancestors(fid):
+            if deps.node[a].get("start"):
+                bound = max(bound, parse_date(deps.node[a]["start"]))
+                break
         okb = True
         for p, k, g in edges:
             pr = tix.get(p)
